@@ -273,6 +273,15 @@ def run(prog, rep):
         if not ok:
             rep.violation('R5', loc(mod, und), 'Neo4jCBMGraph._update_node_delegations', 'written value', 'the non-empty side must be written')
 
+    # the per-property loop of the delegation update is never left early: the write-back of what it collected follows the loop
+    from ..lints import loops_left_early, stale_whole_node_writes
+    for l_, x_ in loops_left_early(und):
+        rep.instance('R5', f'_update_node_delegations: loop over {norm(l_.iter, 60)} left by {type(x_).__name__.lower()}')
+        rep.violation('R5', loc(mod, x_), 'Neo4jCBMGraph._update_node_delegations', f'{type(x_).__name__.lower()} inside the loop over {norm(l_.iter, 50)}',
+                      f'the loop over the delegation properties is left at the first property neither side speaks for: the other property is '
+                      f'never examined and what was collected is not written back, so a shared node that carries only one of the two delegation '
+                      f'properties loses it depending on which model is merged first')
+    rep.instance('R5', f'_update_node_delegations: early exits from the property loop: {len(loops_left_early(und))}')
     # ---- R6 ----
     utxt = ast.unparse(um)
     gid = [a.arg for a in um.args.kwonlyargs + um.args.args if a.arg != 'self'][0]
@@ -281,6 +290,12 @@ def run(prog, rep):
     if not rm or ast.unparse(rm[0].args[0]) != gid:
         rep.violation('R6', loc(mod, um), 'Neo4jCBMGraph.unmerge_adm', 'contributor not removed from the list', 'unmerge must remove the given model id from each node\'s contributor list')
     umi = inline(prog, cbm, um)
+    for w_, pv_, o_ in stale_whole_node_writes(umi):
+        rep.violation('R6', loc(mod, w_), 'Neo4jCBMGraph.unmerge_adm', f'whole-node write-back of a property dictionary read before {call_name(o_)}',
+                      f'`{pv_}` was read from the node before `{norm(o_, 70)}` changed the node; writing the whole dictionary back afterwards '
+                      f'restores the old values (here: the contributor list that still names the unmerged model), so the node is never '
+                      f'recognised as contributed by nobody and merge followed by unmerge does not restore the model')
+    rep.instance('R6', f'unmerge: whole-node write-backs of stale dictionaries: {len(stale_whole_node_writes(umi))}')
     uloops = [l for l in walk_no_nested(umi) if isinstance(l, ast.For) and any(isinstance(c, ast.Call) and call_name(c) == 'remove' and
                                                                              'adm_graph_ids' in ast.unparse(c.func.value) for c in ast.walk(l))]
     if not uloops:
